@@ -13,5 +13,4 @@ def run(ctx):
                          "entries, 4 repeats} x entry points {ResolveConflictsNew, ResolveStateConflictsV2New, "
                          "deprecated ResolveConflicts / ResolveStateConflictsV2, ResolveStateConflicts}; plus 8 "
                          "presentation orders of the room's events through ReverseTopologicalOrdering (both orders)")
-    recs = room.generate(ctx)
-    ctx.replay_and_compare("c11", recs)
+    room.generate(ctx, on_batch=lambda recs: ctx.replay_and_compare("c11", recs))
